@@ -96,6 +96,20 @@ Qed.
 Lemma add_child_same n r nm (s : st) : s_refs pfs (add_child pfs n r nm s) = s_refs pfs s /\ s_be pfs (add_child pfs n r nm s) = s_be pfs s.
 Proof. unfold add_child. destruct (alookup Nat.eqb r (pn_names (get_node pfs s n))); split; reflexivity. Qed.
 
+Lemma gref_incref_other r q (s : st) : q <> r -> gref (incref pfs r s) q = gref s q.
+Proof. intros N. unfold incref. rewrite gref_set_ref. destruct (Nat.eqb_spec q r); [congruence | reflexivity]. Qed.
+
+Lemma add_child_log n r nm (s : st) : s_log pfs (add_child pfs n r nm s) = s_log pfs s.
+Proof. unfold add_child. destruct (alookup Nat.eqb r (pn_names (get_node pfs s n))); reflexivity. Qed.
+
+Lemma up_local (s s' : st) : forall a b, (forall z, up s a z -> fr_parent (gref s' z) = fr_parent (gref s z) /\ fr_xattrOf (gref s' z) = fr_xattrOf (gref s z)) -> up s' a b -> up s a b.
+Proof.
+  intros a b H U. induction U as [r | r p q E U IH | r o q E U IH].
+  - apply up_refl.
+  - destruct (H r (up_refl s r)) as (E1 & _). rewrite E1 in E. eapply up_par; [exact E|]. apply IH. intros z Hz. apply H. eapply up_par; eauto.
+  - destruct (H r (up_refl s r)) as (_ & E2). rewrite E2 in E. eapply up_xat; [exact E|]. apply IH. intros z Hz. apply H. eapply up_xat; eauto.
+Qed.
+
 Section Loop.
 Variables (SA : st) (fnode old t new : nat) (P2new : list nat) (allm : list nat) (d : list nat).
 Let tn := fr_node (gref SA t).
@@ -105,6 +119,11 @@ Hypothesis Hp2 : hpath (s_be pfs SA) (fr_file (gref SA t)) ++ [new] = P2new.
 Hypothesis Hm : forall r, In r allm -> r < rlen SA /\ tref SA r /\ fr_parent (gref SA r) <> None.
 Hypothesis Hinj : forall q q', q < rlen SA -> q' < rlen SA -> tref SA q -> tref SA q' ->
                   fr_file (gref SA q) = fr_file (gref SA q') -> q = q'.
+Hypothesis Hlive : forall r, In r allm -> live SA r.
+Hypothesis Hchain : forall r p q', In r allm -> fr_parent (gref SA r) = Some p -> up SA p q' -> ~ In q' allm.
+
+(** what a fidRef registered under the old name is told *)
+Definition told0 (r : nat) : bcall := BRenamed (fr_file (gref SA r)) (fr_file (gref SA t)) new.
 
 Record LI (cur : st) (T done : list nat) : Prop := mkLI {
   L_lf : lframe fnode tn SA cur;
@@ -112,7 +131,10 @@ Record LI (cur : st) (T done : list nat) : Prop := mkLI {
   L_par : forall q, fr_parent (gref cur q) = fr_parent (gref SA q) \/ (In q T /\ fr_parent (gref cur q) = Some t);
   L_told : forall q, In q T -> hpath (s_be pfs cur) (fr_file (gref SA q)) = P2new;
   L_rest : forall h, (forall q, In q T -> fr_file (gref SA q) <> h) -> hpath (s_be pfs cur) h = hpath (s_be pfs SA) h;
-  L_T : incl T done /\ forall q, In q done -> live cur q -> In q T }.
+  L_T : incl T done /\ forall q, In q done -> live cur q -> In q T;
+  L_all : T = rev done;
+  L_log : rcalls cur = rcalls SA ++ map told0 done;
+  L_cnt : forall q, In q allm -> ~ In q done -> fr_refs (gref cur q) = fr_refs (gref SA q) }.
 
 Lemma file_t_untold cur T done : LI cur T done -> incl done allm -> forall q, In q T -> fr_file (gref SA q) <> fr_file (gref SA t).
 Proof.
@@ -130,7 +152,7 @@ Lemma loop_step cur T done r :
   exists T', LI (if okk then rename_cb pfs pfs_step t new r (with_held pfs (r :: s_held pfs s2) s2) else s2) T' (done ++ [r]).
 Proof.
   intros L Hd Nr held s1.
-  destruct L as [Llf (Linv & Lhc) Lpar Ltold Lrest (LT1 & LT2)].
+  destruct L as [Llf (Linv & Lhc) Lpar Ltold Lrest (LT1 & LT2) Lall Llog Lcnt].
   assert (L0 : LI cur T done) by (constructor; auto).
   assert (Hr : In r allm) by (apply Hd, in_or_app; right; left; reflexivity).
   assert (Hdone : incl done allm) by (intros q Hq; apply Hd, in_or_app; auto).
@@ -145,13 +167,8 @@ Proof.
   assert (GR1 : forall q, gref s1 q = gref cur q) by reflexivity.
   unfold try_incref.
   destruct (Z.leb_spec (fr_refs (gref s1 r)) 0) as [Le|Gt].
-  - (* being destroyed: skipped *)
-    exists T. constructor; auto.
-    + eapply lf_trans; eauto.
-    + split; [intros q Hq; apply in_or_app; left; auto|].
-      intros q Hq Lq. apply in_app_or in Hq. destruct Hq as [Hq|[<-|[]]].
-      * apply LT2; auto.
-      * exfalso. unfold live in Lq. lia.
+  - (* being destroyed: impossible, the count is what it was *)
+    exfalso. rewrite GR1, (Lcnt r Hr Nr) in Le. pose proof (Hlive r Hr) as X. unfold live in X. lia.
   - (* told *)
     assert (Lr1 : r < length (s_refs pfs s1)).
     { destruct (Nat.lt_ge_cases r (length (s_refs pfs s1))); auto. unfold get_ref in Gt. rewrite nth_overflow in Gt by auto. cbn in Gt. lia. }
@@ -247,6 +264,38 @@ Proof.
       * intros q Hq Lq. apply in_app_or in Hq. destruct Hq as [Hq|[<-|[]]]; [|left; reflexivity]. right. apply LT2; auto.
         apply (RF_live _ _ (LF_rf _ _ _ _ (lf_trans _ _ _ _ _ LF1 (lf_trans _ _ _ _ _ (lf_of_cf _ _ _ _ CF2)
                 (lf_trans _ _ _ _ _ LFa (lf_trans _ _ _ _ _ (lf_of_cf _ _ _ _ CFb) (lf_trans _ _ _ _ _ LFc (lf_trans _ _ _ _ _ LFd (lf_of_cf _ _ _ _ CFe))))))))). exact Lq.
+    + rewrite rev_app_distr. cbn [rev app]. rewrite Lall. reflexivity.
+    + rewrite (CF_rlog _ _ CFe).
+      assert (Ld : rcalls sd = rcalls sc ++ [told0 r]).
+      { unfold sd, rcalls, calls, bcall_. destruct (pfs_step (s_be pfs sc) _). cbn [snd s_log rev]. rewrite filter_app. cbn [filter is_renamed].
+        unfold told0. rewrite Fr, Ft. reflexivity. }
+      rewrite Ld. assert (Lc : rcalls sc = rcalls cur).
+      { unfold rcalls, calls, sc. rewrite add_child_log. unfold sb, incref, sa. cbn [s_log set_ref with_refs].
+        change (s_log pfs s2) with (s_log pfs cur). reflexivity. }
+      rewrite Lc, Llog, map_app, <- app_assoc. reflexivity.
+    + intros q Hq Nq. assert (Nqr : q <> r) by (intros ->; apply Nq; apply in_or_app; right; left; reflexivity).
+      assert (Nqd : ~ In q done) by (intros H; apply Nq; apply in_or_app; left; exact H).
+      assert (Nqt : q <> t) by (intros ->; auto).
+      rewrite <- (Lcnt q Hq Nqd).
+      assert (Rd' : fr_refs (gref sd q) = fr_refs (gref cur q)).
+      { assert (GRd : gref sd q = gref sc q) by (unfold get_ref; rewrite Rd; reflexivity). rewrite GRd, GRc.
+        unfold sb. rewrite gref_incref_other by auto. rewrite GRa.
+        destruct (Nat.eqb_spec q r); [congruence|]. change (gref s2 q) with (gref (incref pfs r s1) q).
+        rewrite gref_incref_other by auto. apply f_equal. apply GR1. }
+      rewrite <- Rd'. unfold se, decref_. apply decref_cnt.
+      intros U.
+      (* the chain from the old parent is the chain it was in SA, which avoids the list *)
+      assert (EpA : fr_parent (gref SA r) = Some p).
+      { rewrite Par2 in EP. destruct (Lpar r) as [E|(Hin & _)]; [congruence|]. exfalso. apply Nr. apply LT1. exact Hin. }
+      assert (LK : forall z, up SA p z -> fr_parent (gref sd z) = fr_parent (gref SA z) /\ fr_xattrOf (gref sd z) = fr_xattrOf (gref SA z)).
+      { intros z Uz. pose proof (Hchain r p z Hr EpA Uz) as Nz.
+        assert (Nzr : z <> r) by (intros ->; auto).
+        split.
+        - assert (GRd : gref sd z = gref sc z) by (unfold get_ref; rewrite Rd; reflexivity). rewrite GRd, GRc.
+          rewrite (CF_par _ _ CFb). rewrite GRa. destruct (Nat.eqb_spec z r); [congruence|]. rewrite Par2.
+          destruct (Lpar z) as [E|(Hin & _)]; [exact E|]. exfalso. apply Nz. apply Hdone. apply LT1. exact Hin.
+        - destruct (RF_refs _ _ (LF_rf _ _ _ _ (lf_trans _ _ _ _ _ LF02 (lf_trans _ _ _ _ _ LFa (lf_trans _ _ _ _ _ (lf_of_cf _ _ _ _ CFb) (lf_trans _ _ _ _ _ LFc LFd))))) z) as (_ & _ & E & _). exact E. }
+      apply (Hchain r p q Hr EpA); auto. eapply up_local; eauto.
 Qed.
 
 Lemma loop_all m : forall cur T done held,
